@@ -217,10 +217,9 @@ class Property:
         self.build_impl()
         rng = random.Random(seed * 1000003 + int(hashlib.sha256(pid.encode()).hexdigest()[:6], 16))
         if replay:
-            cases = self.load_replay(replay)
-        else:
-            n = self.quick_n if tier == "quick" else self.thorough_n
-            cases = self.corpus() + self.generate(rng, tier, n)
+            return self.run_replay(replay, broken)
+        n = self.quick_n if tier == "quick" else self.thorough_n
+        cases = self.corpus() + self.generate(rng, tier, n)
         model, impl = self.execute(cases)
         findings, stats = self.judge(cases, model, impl)
 
@@ -321,6 +320,57 @@ class Property:
                 print("impl  :", impl.get(c.id))
         sys.stdout.flush()
         return rc
+
+    def run_replay(self, path, broken):
+        """Re-run the recorded input(s) of a replay file on the extracted model and on the implementation built from
+        /repo's current tree, print both, and say whether the recorded behaviour reproduces: exit 1 (with the VIOLATION
+        line) if it does, or if a proof obligation / the tie is broken; exit 0 if the implementation no longer behaves as
+        recorded.  The property oracle itself needs the generator's bookkeeping and is not re-applied: the record says what
+        was wrong with this outcome."""
+        pid = self.pid
+        obj = json.load(open(path))
+        rc = 0
+        for b in broken:
+            print("  " + b)
+            rc = 1
+        for b in obj.get("broken", []):
+            print("recorded: " + b)
+        if "case" not in obj:
+            if rc:
+                print("VIOLATION property=%s replay=%s no-failing-input-found" % (pid, path))
+            print("%s replay: no recorded input (the record names a proof obligation or tie); proofs %s"
+                  % (pid, "BROKEN" if rc else "ok"))
+            return rc
+        recs = [{"case": obj["case"], "model": obj.get("model"), "impl": obj.get("impl")}] + list(obj.get("related", []))
+        cases = [RawCase(r["case"]) for r in recs]
+        lines = [c.line() for c in cases]
+        try:
+            model, impl = self.replay_execute(cases)
+        except Exception as ex:           # inputs that only the property's own harness can run (C17's generated crate)
+            print("%s replay: the recorded input cannot be re-run outside the generating run (%s): %s"
+                  % (pid, type(ex).__name__, obj.get("detail", "")[:300]))
+            return rc
+        same_impl = True
+        for c, r in zip(cases, recs):
+            print("case  :", c.line()[:2000])
+            print("model :", model.get(c.id))
+            print("impl  :", impl.get(c.id))
+            if r.get("impl") is not None and list(r["impl"]) != list(impl.get(c.id) or []):
+                same_impl = False
+                print("  (recorded implementation outcome: %s)" % (str(r["impl"])[:600],))
+        print("recorded %s: %s" % (obj.get("kind"), obj.get("detail", "")[:600]))
+        if same_impl:
+            print("VIOLATION property=%s replay=%s" % (pid, path))
+            print("  reproduced: the implementation behaves as recorded")
+            rc = 1
+        else:
+            print("%s replay: not reproduced -- the implementation no longer behaves as recorded" % pid)
+        sys.stdout.flush()
+        return rc
+
+    def replay_execute(self, cases):
+        lines = [c.line() for c in cases]
+        return infra.run_model(lines), infra.run_driver(lines)
 
     def build_impl(self):
         infra.ensure_driver()
